@@ -79,17 +79,24 @@ class Analysis:
             if ty.get("k") != "bool" or self.terms.defs.partial[l]:
                 continue
             defs = self.terms.defs.whole[l]
-            consts = []
+            cand = []          # definitions that can make the local equal `tr`
             for (bi, si, x) in defs:
-                if si == "t" or x.get("k") != "use" or x["o"].get("k") != "const" or not isinstance(x["o"].get("v"), (bool, int)):
-                    consts = None
-                    break
-                consts.append((bi, bool(x["o"]["v"])))
-            if not consts or any(self.in_loop(bi) for bi, _ in consts):
+                if si != "t" and x.get("k") == "use" and x["o"].get("k") == "const" and isinstance(x["o"].get("v"), (bool, int)):
+                    if bool(x["o"]["v"]) == tr:
+                        cand.append((bi, si, None))
+                else:
+                    cand.append((bi, si, x))
+            if len(defs) < 2 or len(cand) != 1 or any(self.in_loop(bi) for bi, _, _ in defs):
                 continue
-            same = [bi for bi, v in consts if v == tr]
-            if len(same) == 1 and same[0] != bb:
-                extra += self.atoms_at(same[0], _depth + 1)
+            bi, si, x = cand[0]
+            if bi == bb:
+                continue
+            extra += self.atoms_at(bi, _depth + 1)
+            if x is not None:
+                # `a && b && c` as a value: the last operand is computed only when the others held, and is the value
+                self.terms._pos = (bi, si)
+                dt = self.terms.call_term(x, bi) if si == "t" else self.terms.rvalue(x)
+                extra.append((dt, rel, vals))
         seen = set()
         res = []
         for a in out + extra:
